@@ -76,3 +76,41 @@ Definition canonz_f (b : N) : N := if f64_is_zero b then 0 else b.
 Definition canonz (v : value) : value :=
   match v with VFloats l => VFloats (map canonz_f l) | _ => v end.
 Definition canonz_kv (x : kv) : kv := (fst x, canonz (snd x)).
+
+(** ** Text forms (Value.Emit): decimal numerals, bool, slices, JSON strings. *)
+Fixpoint dec_digits (fuel : nat) (n : N) (acc : bytes) : bytes :=
+  match fuel with
+  | O => acc
+  | S f => let acc' := (48 + n mod 10) :: acc in
+           if n <? 10 then acc' else dec_digits f (n / 10) acc'
+  end.
+Definition dec (n : N) : bytes := dec_digits 25 n [].
+Definition TWO64 : N := 18446744073709551616.
+(** strconv.FormatInt(x, 10) of the int64 whose two's-complement pattern is [n]. *)
+Definition dec_i64 (n : N) : bytes := if n <? TWO63 then dec n else 45 :: dec (TWO64 - n).
+
+Fixpoint join (sep : bytes) (l : list bytes) : bytes :=
+  match l with
+  | [] => []
+  | [x] => x
+  | x :: r => x ++ sep ++ join sep r
+  end.
+
+Definition text_bool (b : bool) : bytes := if b then str "true" else str "false".
+
+(** encoding/json string escaping (escapeHTML on) of an ASCII byte. *)
+Definition hexl (v : N) : N := if v <? 10 then 48 + v else 87 + v.
+Definition json_esc (c : N) : bytes :=
+  if (c =? 34) || (c =? 92) then [92; c]
+  else if c =? 8 then [92; 98]
+  else if c =? 12 then [92; 102]
+  else if c =? 10 then [92; 110]
+  else if c =? 13 then [92; 114]
+  else if c =? 9 then [92; 116]
+  else if (c <? 32) || (c =? 60) || (c =? 62) || (c =? 38) then [92; 117; 48; 48; hexl (c / 16); hexl (c mod 16)]
+  else [c].
+Definition json_string (s : bytes) : bytes := [34] ++ flat_map json_esc s ++ [34].
+
+Definition text_bools (l : list bool) : bytes := [91] ++ join [32] (map text_bool l) ++ [93].   (* fmt.Sprint([]bool) *)
+Definition text_ints (l : list N) : bytes := [91] ++ join [44] (map dec_i64 l) ++ [93].         (* json.Marshal([]int64) *)
+Definition text_strs (l : list bytes) : bytes := [91] ++ join [44] (map json_string l) ++ [93]. (* json.Marshal([]string) *)
